@@ -80,6 +80,8 @@ func c02Defs(e fit.VerifField) []fitmodel.FieldDef {
 		add(fitmodel.Uint8, 1)
 	case e.Kind == kindLat || e.Kind == kindLng:
 		add(fitmodel.Sint32, 4)
+		add(fitmodel.Sint16, 2)
+		add(fitmodel.Sint8, 1)
 	case e.Base == fitmodel.String:
 		for _, s := range []int{1, 2, int(e.Length), 7, 255} {
 			add(fitmodel.String, s)
@@ -119,6 +121,15 @@ func c02Payloads(e fit.VerifField, fd fitmodel.FieldDef, big bool) [][]byte {
 		if e.Array {
 			fill(func(i int) byte { return map[bool]byte{true: 0, false: byte('p' + i%5)}[i%3 == 2] }) // several strings
 		}
+		if size >= 6 && !e.Array {
+			// multi-byte runes, and a correctly encoded U+FFFD at the very end of the text
+			mb := make([]byte, size)
+			copy(mb, "é\uFFFD")
+			out = append(out, mb)
+			mb2 := make([]byte, size)
+			copy(mb2, "x\uFFFD")
+			out = append(out, mb2)
+		}
 		return out
 	}
 	elem := func(v uint64) {
@@ -140,7 +151,13 @@ func c02Payloads(e fit.VerifField, fd fitmodel.FieldDef, big bool) [][]byte {
 	}
 	fill(func(i int) byte { return byte(i + 1) }) // 01 02 03 04 ...
 	fill(func(i int) byte { return byte(0xF1 + i) })
-	if e.Kind == kindLat || e.Kind == kindLng {
+	if (e.Kind == kindLat || e.Kind == kindLng) && bs == 2 {
+		// narrow coordinates: the byte patterns whose two bytes differ in their top bit
+		for _, v := range []uint64{0x0080, 0x8000, 0x00FF, 0xFF00, 0x807F, 0x7F80} {
+			out = append(out, fitmodel.PutUint(binaryOrder(big), 2, v))
+		}
+	}
+	if (e.Kind == kindLat || e.Kind == kindLng) && bs == 4 {
 		for _, s := range []int64{1 << 30, -(1 << 30), 1<<30 - 1, -(1 << 30) + 1, 1<<30 + 1, -(1 << 30) - 1, 0x7FFFFFFF, -(1 << 31), 0x7FFFFFFE} {
 			out = append(out, fitmodel.PutUint(binaryOrder(big), 4, uint64(uint32(int32(s)))))
 		}
